@@ -1,6 +1,7 @@
 import TabulaModel.Lemmas.Reader
 import TabulaModel.Lemmas.ReaderRenumber
 import TabulaModel.Lemmas.ReaderRender
+import TabulaModel.Lemmas.ReaderBounds
 import TabulaModel.Props.C01
 import TabulaModel.Props.C04
 import TabulaModel.Props.C05
@@ -15,6 +16,17 @@ content syntax), C05 (filter chains), C01 (page tree, content join) and C07 (cod
 tied to `tabula.Open(file)…Fragments()` on whole files by the op `c01.read`.  The theorems
 below say which differences between two abstract files `readPages` cannot see.  Each holds
 for ALL abstract files (well-formed or not: where tabula fails, both sides fail alike).
+
+Resource bounds of the code (repairs made for C02) are part of the model and of the theorems:
+a page tree of more than 10000 levels is refused (86b42aa); an indirect `/Kids` array is
+entered once (cd93b07); the decoded content of one page is at most 64 MiB (36a165b); arrays and
+dictionaries nest at most 500 deep in both parsers (a3fd154, C06's models). Theorems 1-4 and 6
+hold verbatim (both sides meet the same bounds); theorems 5 and 7 speak about content sizes
+and carry the 64 MiB hypothesis; section 8 proves what happens at and beyond each bound and
+that the work of the walk is bounded for every file. The limit of 16 nested object loads
+(129dd3d) guards the re-entry of `GetObject` through an indirect `/Length` while a stream is
+being parsed; the abstract file carries each stream's data, so that path (and its bound) is
+outside this model: `getObject` nests at most two loads (an object inside an object stream).
 -/
 namespace Tabula.C01R
 open Tabula.Reader
@@ -376,7 +388,9 @@ theorem csParse_join_chunks (cs : List Chunk) (hv : ValidOps false (glue [] cs).
 
 open Tabula.Pdf in
 /-- **what tabula's join guarantees** (`extractTextWithFragments` after the separator fix
-9d65264: every non-empty decoded stream is followed by one line feed).
+9d65264: every non-empty decoded stream is followed by one line feed). Kept verbatim: it is
+a statement about the bytes of the join (`joinContents`), which the code delivers whenever it
+delivers a content at all (`C01.contents_split_bounded`), i.e. up to 64 MiB per page.
 (a) For ANY parts, cut anywhere: the white-space-delimited words of the joined content are
 the words of the parts in order (C01 `contents_split`); without the separator this fails
 (`C01.concat_without_separator_counterexample`).
@@ -440,27 +454,49 @@ cuts at every token boundary).
 /-- **read_contents_split_invariant_partial**: a page whose `/Contents` is one stream holding a
 legally spelled program, and the page whose `/Contents` is an array of streams holding the
 chunks of that program (cut at operation boundaries, see `contents_join_guarantee`), show the
-same strings under the same resources — whatever filters the individual streams use. -/
+same strings under the same resources — whatever filters the individual streams use —
+provided the chunks, joined with tabula's separators, have at most 64 MiB.
+
+Restated (new hypothesis `hsize`): since 36a165b `extractTextWithFragments` refuses a page
+whose joined content exceeds `maxPageContentBytes`, and the split content is longer than the
+uncut one by one separator per non-empty chunk. At the edge the invariance really fails: an
+uncut stream of exactly 64 MiB is read, the same bytes in two streams are refused
+(`C01.joinBounded_single` and the examples after it). `hsize` is on the SPLIT side, which is
+the longer one (`C01.joinContents_flat_le`); both sides are then within the limit. -/
 theorem read_contents_split_invariant_partial (res : Res) (ext : Ext) (r : Option Pdf.Obj) (cs : List Chunk)
     (hv : Pdf.ValidOps false (glue [] cs).1) (ht : Pdf.SepOk (glue [] cs).2)
     (hd : ∀ c ∈ cs, ∀ o ∈ c.1, Pdf.Obj.depthList (Pdf.valueList o.operands) ≤ Pdf.maxNestingDepth)
+    (hsize : (PdfDoc.joinContents (cs.map chunkBytes)).length ≤ PdfDoc.maxPageContentBytes)
     (c1 c2 : Pdf.Obj) (xs : List Pdf.Obj) (vs : List SVal)
     (h1 : resolve res c1 = .ok (.stream (some (cs.flatMap chunkBytes))))
     (h2 : resolve res c2 = .ok (.obj (.arr xs))) (h3 : resolveAll res xs = .ok vs)
     (h4 : decodedParts vs = .ok (cs.map chunkBytes)) :
     pageStrings res ext (some c1) r = pageStrings res ext (some c2) r := by
   have hg := contents_join_guarantee [] cs hv ht hd
+  have hflat : (cs.map chunkBytes).flatMap id = cs.flatMap chunkBytes := by
+    simp [List.flatMap_map]
+  have hsize1 : (PdfDoc.joinContents [cs.flatMap chunkBytes]).length ≤ PdfDoc.maxPageContentBytes := by
+    have := C01.joinContents_flat_le (cs.map chunkBytes)
+    rw [hflat] at this
+    omega
   have hb1 : contentBytes res (some c1) = .ok (some (PdfDoc.joinContents [cs.flatMap chunkBytes])) := by
-    simp [contentBytes, h1, decodedParts]
+    simp [contentBytes, h1, decodedParts, joinParts, C01.joinBounded_within _ hsize1]
   have hb2 : contentBytes res (some c2) = .ok (some (PdfDoc.joinContents (cs.map chunkBytes))) := by
-    simp [contentBytes, h2, h3, h4]
+    simp [contentBytes, h2, h3, h4, joinParts, C01.joinBounded_within _ hsize]
   rw [pageStrings_content res ext _ r _ hb1, pageStrings_content res ext _ r _ hb2]
   unfold showStrings
   rw [hg.2.1, hg.2.2]
 
 open Tabula.Pdf in
 /-- satisfiability: `BT (a) Tj` and `ET` as two chunks without any white space at the cut —
-legal only because the reader inserts its separator (`TjET` would be one word) -/
+legal only because the reader inserts its separator (`TjET` would be one word); the joined
+chunks have 14 bytes -/
+example :
+    let cs : List Chunk :=
+      [([⟨[], [], [66, 84]⟩, ⟨[.lit [.ws 32] [.raw 97]], [.ws 32], [84, 106]⟩], []), ([⟨[], [.ws 32], [69, 84]⟩], [])]
+    (PdfDoc.joinContents (cs.map chunkBytes)).length ≤ PdfDoc.maxPageContentBytes := by decide
+
+open Tabula.Pdf in
 example :
     let cs : List Chunk :=
       [([⟨[], [], [66, 84]⟩, ⟨[.lit [.ws 32] [.raw 97]], [.ws 32], [84, 106]⟩], []), ([⟨[], [.ws 32], [69, 84]⟩], [])]
@@ -544,9 +580,13 @@ theorem parseBody_stream (sd : SObj) (kv : Dict) (data : List Nat) (hv : sd.Vali
   simp [parseBody, this]
 
 open Tabula.Pdf in
+/-- the bytes of page `i`'s content stream as the spelling writes them -/
+def progBytes (sp : Spelling) (i : Nat) : Reader.Str := renderOps (sp.prog i) ++ renderSep (sp.trail i)
+
+open Tabula.Pdf in
 /-- the objects read back from the rendered file are the base layout of the document -/
 theorem baseStore_render (d : LDoc) (sp : Spelling) (hok : sp.Ok d) (ext : Ext) :
-    BaseStore (getObject (renderBase d sp) ext) d := by
+    BaseStore (getObject (renderBase d sp) ext) d (progBytes sp) := by
   have hnd := nodup_renderBase d sp
   have get := fun (p : Printed) (hp : p ∈ renderBaseList d sp) =>
     getObject_fileOf 1 (renderBaseList d sp) ext hnd p hp
@@ -567,7 +607,8 @@ theorem baseStore_render (d : LDoc) (sp : Spelling) (hok : sp.Ok d) (ext : Ext) 
   · intro i hi
     obtain ⟨hv, hdep, kv, hval, hnf⟩ := hok.cdict i hi
     obtain ⟨hvo, hto, hops⟩ := hok.prog i hi
-    refine ⟨renderOps (sp.prog i) ++ renderSep (sp.trail i), ?_, ?_⟩
+    unfold progBytes
+    refine ⟨?_, ?_⟩
     · have := get ⟨contNum i, .stream (sp.cdict i).render (renderOps (sp.prog i) ++ renderSep (sp.trail i))⟩
         (mem_page d sp i hi _ (by simp [pagePrinted]))
       rw [parseBody_stream (sp.cdict i) kv (renderOps (sp.prog i) ++ renderSep (sp.trail i)) hv hdep hval] at this
@@ -605,13 +646,37 @@ theorem baseStore_render (d : LDoc) (sp : Spelling) (hok : sp.Ok d) (ext : Ext) 
       simp only [List.flatMap_cons, List.flatMap_nil, List.append_nil, chunkBytes] at this
       rw [this, hops]
 
+/-- the fuel of the rendered file covers the walk over its `d.length` leaves -/
+theorem fuelOf_renderBase_ge (d : LDoc) (sp : Spelling) : fuelOf (renderBase d sp) ≥ 2 * d.length + 3 := by
+  by_cases h0 : d.length = 0
+  · have := fuelOf_fileOf_ge 1 (renderBaseList d sp) ⟨3, .plain sp.font.render⟩ (by simp [renderBaseList])
+    unfold renderBase
+    simp only at this
+    omega
+  · have hi : d.length - 1 < d.length := by omega
+    have := fuelOf_fileOf_ge 1 (renderBaseList d sp)
+      ⟨contNum (d.length - 1), .stream (sp.cdict (d.length - 1)).render
+        (Pdf.renderOps (sp.prog (d.length - 1)) ++ Pdf.renderSep (sp.trail (d.length - 1)))⟩
+      (mem_page d sp _ hi _ (by simp [pagePrinted]))
+    unfold renderBase
+    simp only [contNum] at this
+    omega
+
 /-- **read_render_partial** (`read_render` for the base layout): write the logical document
 `d` (pages × lines, every line a byte string shown in one Type1/WinAnsi font) as catalog →
 `/Pages` (carrying the `/Resources` its leaves inherit) → one leaf and one unfiltered content
 stream `BT /F1 12 Tf (line) Tj … ET` per page, every object and every program in ANY legal
-spelling (C06: any escapes, number forms, separators, comments). Reading the file gives, page
-by page and line by line, exactly the lines' bytes decoded through WinAnsiEncoding and
-normalised — for every document, any number of pages and lines.
+spelling (C06: any escapes, number forms, separators, comments), every page's program spelled
+in at most 64 MiB. Reading the file gives, page by page and line by line, exactly the lines'
+bytes decoded through WinAnsiEncoding and normalised — for every such document, any number of
+pages and lines.
+
+Restated (new hypothesis `hsize`): since 36a165b a page whose decoded content exceeds
+`maxPageContentBytes = 64 MiB` is refused, so "for every document" became "for every document
+whose pages are each spelled in at most 64 MiB"; `read_render_beyond` is the other half. The
+other bounds do not restrict the statement: the base layout's page tree has two levels
+(limit 10000), its `/Kids` array is direct, its objects nest at most 3 deep (limit 500; the
+content dictionaries carry the hypothesis in `Spelling.Ok`), its operands not at all.
 
 The full `read_render` (every layout the harness's writer produces) is this theorem composed
 with 1–6: further revisions with stale objects (1), members of object streams (2), any filter
@@ -619,28 +684,34 @@ chain on the streams (3), deeper page trees (4), content cut into several stream
 numbering (6). That composition — a Lean-side `render d lay` for all twelve layout dimensions
 and the bookkeeping that its output satisfies the hypotheses of 1–6 — is not done; on the
 generated layouts it is covered by the differential op `c01.read`. -/
-theorem read_render_partial (d : LDoc) (sp : Spelling) (hok : sp.Ok d) (ext : Ext) :
+theorem read_render_partial (d : LDoc) (sp : Spelling) (hok : sp.Ok d) (ext : Ext)
+    (hsize : ∀ i, i < d.length → (progBytes sp i).length ≤ PdfDoc.maxPageContentBytes) :
     readPages (renderBase d sp) ext = .ok (d.map fun lines => lines.map (shown ext)) := by
   unfold readPages
-  have hfuel : fuelOf (renderBase d sp) ≥ 2 * d.length + 3 := by
-    by_cases h0 : d.length = 0
-    · have := fuelOf_fileOf_ge 1 (renderBaseList d sp) ⟨3, .plain sp.font.render⟩ (by simp [renderBaseList])
-      unfold renderBase
-      simp only at this
-      omega
-    · have hi : d.length - 1 < d.length := by omega
-      have := fuelOf_fileOf_ge 1 (renderBaseList d sp)
-        ⟨contNum (d.length - 1), .stream (sp.cdict (d.length - 1)).render
-          (Pdf.renderOps (sp.prog (d.length - 1)) ++ Pdf.renderSep (sp.trail (d.length - 1)))⟩
-        (mem_page d sp _ hi _ (by simp [pagePrinted]))
-      unfold renderBase
-      simp only [contNum] at this
-      omega
+  have hfuel := fuelOf_renderBase_ge d sp
   have hd : prevDangling (renderBase d sp) = false := prevDangling_fileOf _ _
   have hr : rootOf (renderBase d sp) = some 1 := rootOf_fileOf _ _
   rw [hd, hr]
   simp only [Bool.false_eq_true, if_false]
-  exact readWith_base _ ext d (baseStore_render d sp hok ext) (fun b => decodeString_isSome ext defaultFont b) _ hfuel
+  exact readWith_base _ ext d (progBytes sp) (baseStore_render d sp hok ext)
+    (fun b => decodeString_isSome ext defaultFont b) hsize _ hfuel
+
+/-- **read_render_beyond**: the same document with ONE page spelled in more than 64 MiB (a
+legal spelling: e.g. white space or comments between the operations) is not read: the reader
+answers with an error — for the whole `Fragments()` call of that page, and so for the document
+as the model reports it. A legal PDF page of that size is refused by design of the repair
+36a165b; see the report for what this means for property C01. -/
+theorem read_render_beyond (d : LDoc) (sp : Spelling) (hok : sp.Ok d) (ext : Ext)
+    (hbig : ∃ i, i < d.length ∧ (progBytes sp i).length > PdfDoc.maxPageContentBytes) :
+    readPages (renderBase d sp) ext = .error .err := by
+  unfold readPages
+  have hfuel := fuelOf_renderBase_ge d sp
+  have hd : prevDangling (renderBase d sp) = false := prevDangling_fileOf _ _
+  have hr : rootOf (renderBase d sp) = some 1 := rootOf_fileOf _ _
+  rw [hd, hr]
+  simp only [Bool.false_eq_true, if_false]
+  exact readWith_base_beyond _ ext d (progBytes sp) (baseStore_render d sp hok ext)
+    (fun b => decodeString_isSome ext defaultFont b) hbig _ hfuel
 
 open Tabula.Pdf in
 /-- satisfiability of `Spelling.Ok`: the one-page document with the line `Hi`, every object in
@@ -675,5 +746,199 @@ example : Spelling.Ok
       refine ⟨⟨66, [84], ?_⟩, ⟨84, [102], ?_⟩, ⟨84, [106], ?_⟩, ⟨69, [84], ?_⟩⟩ <;> simp
     · intro u hu; cases hu
     · simp [opVal, pageOps, valueList, SObj.value, strBytes, SPiece.bytes, NPiece.byte, kF1]
+
+/-! ## 8. the resource bounds of the reader (C02 repairs 86b42aa, cd93b07, 36a165b, a3fd154)
+
+For each bound: (a) beyond it the model answers what the code answers — an error;
+(b) the work is bounded for EVERY input; (c) the edge. -/
+
+/-! ### 8.1 the page tree is traversed at most 10000 levels deep (86b42aa) -/
+
+/-- (a) a node met at depth 10000 or more — `/Pages`, `/Page` or anything else, valid or not —
+ends the walk with an error, before it is looked at -/
+theorem walk_refuses_beyond_depth_limit (res : Res) (fuel dep : Nat) (vis : List Nat) (d : Dict)
+    (h : dep ≥ PdfDoc.maxPageTreeDepth) : buildNode res (fuel + 1) dep vis d = .error .err :=
+  buildNode_too_deep res fuel dep vis d h
+
+/-- (b) for every object store: the page tree the reader delivers has at most 10000 levels — and
+the recursion of `traversePageNode`, one call per level on a path, is at most that deep -/
+theorem walk_depth_bounded (res : Res) (fuel : Nat) (root : Option Nat) (t : RTree)
+    (h : pageTree res fuel root = .ok t) : PdfDoc.height (toPTree t) ≤ PdfDoc.maxPageTreeDepth :=
+  pageTree_height res fuel root t h
+
+/-- (c) the edge, on a store whose page tree is a list of `k` `/Pages` nodes above one page
+(`k + 1` levels): it is read iff `k + 1 ≤ 10000`. Instances: `Reader.pageTree_chain` at
+`k = 9999` (read) and `k = 10000` (refused), examples in Lemmas/ReaderBounds.lean. -/
+theorem walk_depth_limit_edge (k fuel : Nat) (hf : fuel ≥ 2 * k + 1) :
+    pageTree (chainRes k) fuel (some (k + 1)) =
+      if k + 1 ≤ PdfDoc.maxPageTreeDepth then .ok (chainFrom k k) else .error .err :=
+  pageTree_chain k fuel hf
+
+example : pageTree (chainRes 9999) 20000 (some 10000) = .ok (chainFrom 9999 9999) := by
+  rw [walk_depth_limit_edge 9999 20000 (by omega)]; rfl
+example : pageTree (chainRes 10000) 30000 (some 10001) = .error .err := by
+  rw [walk_depth_limit_edge 10000 30000 (by omega)]; rfl
+
+/-! ### 8.2 an indirect `/Kids` array is traversed once (cd93b07) -/
+
+/-- (a) a `/Pages` node whose `/Kids` is a reference to an object number already visited — an
+array that another node has used, or a node — ends the walk with an error -/
+theorem walk_kids_array_once (res : Res) (fuel dep : Nat) (vis : List Nat) (d : Dict) (n g : Int)
+    (ht : dget d kType = some (.name kPages)) (hk : dget d kKids = some (.ref n g))
+    (hn : 0 ≤ n) (hv : n.toNat ∈ vis) : buildNode res (fuel + 1) dep vis d = .error .err :=
+  buildNode_kids_revisited res fuel dep vis d n g ht hk hn hv
+
+/-- (c) two `/Pages` nodes naming the same (empty) indirect `/Kids` array: an error since
+cd93b07 (`Reader.sharedKidsRes`; before: a page tree without pages) -/
+example : pageTree sharedKidsRes 20 (some 1) = .error .err := by
+  simp [pageTree, sharedKidsRes, resolve, dget, buildNode, buildKids, visitKidsRef, kType, kPages, kKids, kCount,
+    PdfDoc.maxPageTreeDepth]
+
+/-- (b) **the work of the walk is bounded by the size of the cross-reference table**, for every
+file: every object number — node or `/Kids` array — is entered at most once, so the tree that
+is built has at most one node per number that has an entry, plus the root … -/
+theorem walk_work_bounded (f : AbsFile) (ext : Ext) (fuel : Nat) (root : Option Nat) (t : RTree)
+    (h : pageTree (getObject f ext) fuel root = .ok t) : t.size ≤ maxKey (xref f) + 2 :=
+  pageTree_size f ext fuel root t h
+
+/-- … and the fuel `fuelOf f = 4 * (largest object number + 2)` the model gives the walk is
+never used up: the answer `fuel` is impossible, for every file (so the walk of the model
+always ends for a reason the code has too). -/
+theorem read_never_answers_fuel (f : AbsFile) (ext : Ext) : readPages f ext ≠ .error .fuel :=
+  readPages_never_fuel f ext
+
+/-! ### 8.3 the decoded content of one page is limited to 64 MiB (36a165b) -/
+
+theorem joinParts_bounded (ps : List Reader.Str) (content : Reader.Str) (h : joinParts ps = .ok (some content)) :
+    content = PdfDoc.joinContents ps ∧ content.length ≤ PdfDoc.maxPageContentBytes + 1 := by
+  unfold joinParts at h
+  split at h
+  · next c hc =>
+    cases h
+    exact ⟨(C01.contents_split_bounded ps _ hc).1, C01.joinBounded_bytes_kept ps _ hc⟩
+  · cases h
+
+/-- (b) **bounded work**: whatever the page's `/Contents` names — any number of streams of any
+size, the same stream any number of times — the content that is kept and handed to the
+content parser has at most `maxPageContentBytes + 1` bytes, for every object store -/
+theorem page_content_bounded (res : Res) (c : Option Pdf.Obj) (content : Reader.Str)
+    (h : contentBytes res c = .ok (some content)) : content.length ≤ PdfDoc.maxPageContentBytes + 1 := by
+  unfold contentBytes at h
+  repeat' split at h
+  all_goals first
+    | (cases h; done)
+    | exact (joinParts_bounded _ _ h).2
+
+/-- (a) **beyond the limit**: a `/Contents` array whose decoded streams, joined with the
+separators, exceed the limit is an error of `extractTextWithFragments` (also for the page whose
+text would be extracted from the first few bytes: nothing is truncated, the page is refused) -/
+theorem page_content_beyond_limit_refused (res : Res) (c : Pdf.Obj) (xs : List Pdf.Obj) (vs : List SVal) (ps : List Reader.Str)
+    (h2 : resolve res c = .ok (.obj (.arr xs))) (h3 : resolveAll res xs = .ok vs)
+    (h4 : decodedParts vs = .ok ps)
+    (hbig : (PdfDoc.joinContents ps).length > PdfDoc.maxPageContentBytes + 1) :
+    contentBytes res (some c) = .error .err := by
+  simp [contentBytes, h2, h3, h4, joinParts, C01.joinBounded_beyond ps hbig]
+
+/-- (c) the edge: a page whose content is one stream of exactly 64 MiB is read, one byte more
+is refused (for any resolver holding that stream under number `n`) -/
+theorem page_content_limit_edge (res : Res) (n k : Nat)
+    (hc : res n = .ok (.stream (some (List.replicate k 32)))) :
+    contentBytes res (some (.ref n 0)) =
+      if k ≤ PdfDoc.maxPageContentBytes then .ok (some (PdfDoc.joinContents [List.replicate k 32]))
+      else .error .err := by
+  split
+  · exact contentBytes_one res n _ hc (by rw [List.length_replicate]; assumption)
+  · exact contentBytes_one_beyond res n _ hc (by rw [List.length_replicate]; omega)
+
+example (res : Res) (hc : res 7 = .ok (.stream (some (List.replicate 67108864 32)))) :
+    contentBytes res (some (.ref (7 : Nat) 0)) = .ok (some (PdfDoc.joinContents [List.replicate 67108864 32])) := by
+  rw [page_content_limit_edge res 7 67108864 hc, if_pos (by decide)]
+example (res : Res) (hc : res 7 = .ok (.stream (some (List.replicate 67108865 32)))) :
+    contentBytes res (some (.ref (7 : Nat) 0)) = .error .err := by
+  rw [page_content_limit_edge res 7 67108865 hc, if_neg (by decide)]
+
+/-! ### 8.4 arrays and dictionaries nest at most 500 deep (a3fd154, C06's parser models)
+
+`Model/Reader.lean` parses every object body, object-stream header and member with C06's
+`coreParse` and every page content with `csParse`, which carry the limit. The round-trip
+theorems used above carry the hypothesis where it is needed: `contents_join_guarantee` and
+`read_contents_split_invariant_partial` (`hd`: operands nested at most 500 deep),
+`parseBody_plain` / `parseBody_stream` / `Spelling.Ok.cdict` (`value.depth ≤ maxNestingDepth`;
+the fixed objects of the base layout are 1-3 deep, checked by `decide`). -/
+
+open Tabula.Pdf in
+/-- (a) an object whose body is a legal spelling of a value nested deeper than 500 does not load
+(C06 `core_too_deep`) -/
+theorem object_too_deep_refused (so : SObj) (hv : so.Valid false) (hd : maxNestingDepth < so.value.depth) :
+    parseBody (.plain so.render) = .error .err := by
+  have := C06.core_too_deep so [] hv (fun _ h => by cases h) hd
+  have e : renderSep [] = [] := rfl
+  rw [e, List.append_nil] at this
+  simp [parseBody, this]
+
+theorem parseBody_shallow (b : RawBody) (o : Pdf.Obj) (h : parseBody b = .ok (.obj o)) :
+    o.depth ≤ Pdf.maxNestingDepth := by
+  cases b with
+  | plain body =>
+    simp only [parseBody] at h
+    split at h
+    · next o' s hp =>
+      cases h
+      exact C06.core_accepts_within_limit body _ s hp
+    · cases h
+  | stream dd data =>
+    simp only [parseBody] at h
+    split at h <;> cases h
+
+/-- (b) every object the reader model loads is nested at most 500 deep, whatever the file holds
+(C06 `core_accepts_within_limit`): nothing above the object layer ever recurses deeper into
+an object than that -/
+theorem objects_loaded_shallow (f : AbsFile) (ext : Ext) (n : Nat) (o : Pdf.Obj) (h : getObject f ext n = .ok (.obj o)) :
+    o.depth ≤ Pdf.maxNestingDepth := by
+  unfold getObject at h
+  split at h
+  · cases h
+  · cases h
+  · split at h
+    · next v hv =>
+      unfold objectAt at hv
+      split at hv
+      · cases hv
+      · split at hv
+        · cases v with
+          | obj o' =>
+            simp only [toSVal] at h
+            cases h
+            exact parseBody_shallow _ _ hv
+          | stream kv data => simp [toSVal] at h
+        · cases hv
+    · cases h
+  · split at h
+    · cases h
+    · next os _ =>
+      split at h
+      · next o' hm =>
+        cases h
+        unfold memberAt at hm
+        split at hm
+        · cases hm
+        · split at hm
+          · cases hm
+          · next o'' s hp =>
+            split at hm
+            · cases hm
+              exact C06.core_accepts_within_limit _ _ s hp
+            · cases hm
+      · cases h
+
+
+open Tabula.Pdf in
+/-- (c) the edge: an array nested 501 deep does not load, one nested 500 deep does -/
+example : parseBody (.plain (nestArr 501 (SObj.int [] true 2 (-7))).render) = .error .err :=
+  object_too_deep_refused _ (nestArr_valid _ _ (by simp [SObj.Valid, SepOk])) (by rw [nestArr_depth]; decide)
+open Tabula.Pdf in
+example : parseBody (.plain (nestArr 500 (SObj.int [] true 2 (-7))).render) =
+    .ok (.obj (nestArr 500 (SObj.int [] true 2 (-7))).value) :=
+  parseBody_plain _ (nestArr_valid _ _ (by simp [SObj.Valid, SepOk])) (by rw [nestArr_depth]; decide)
 
 end Tabula.C01R
